@@ -59,6 +59,8 @@ def _menus():
             m["jobscript"] = ("MetaData(ds, {'metadata_type': 'add_job_script', 'name': 'blk', 'script': ['# hello'], 'depends_on': []})" + body, True)
             m["coll_override"] = ("MetaData(ds, {'metadata_type': 'add_atlas_event_collection_info', 'name': 'Jets', 'include_files': ['x/Y.h'], "
                                   "'container_type': 'xAOD::ThingContainer', 'element_type': 'xAOD::Thing', 'contains_collection': True})" + body, True)
+            m["coll_override2"] = ("MetaData(ds, {'metadata_type': 'add_atlas_event_collection_info', 'name': 'Jets', 'include_files': ['other/Z.h'], "
+                                   "'container_type': 'xAOD::OtherContainer', 'element_type': 'xAOD::Other', 'contains_collection': True, 'link_libraries': ['libOther']})" + body, True)
         else:
             m["defaults"] = (f"ds.Select(lambda e: e.{coll}('A').Select(lambda m: m.globalTrack().pt()))", True)
         menus[backend] = m
@@ -302,6 +304,7 @@ def main(tier="quick"):
     validated = 0
     bad = []
     hash_succ = {}       # state hash -> {event: outcome key}   (run-time check of the canonicalisation argument)
+    hash_conflicts = []
     outcomes_per_query = {}
     max_depth_done = 0
     for d in range(depth):
@@ -347,7 +350,7 @@ def main(tier="quick"):
                         [e[1] for e in ph if e[0] == "new"] == [e[1] for e in h if e[0] == "new"]:
                     for ev, ok in table.items():
                         if ev in ptable and ptable[ev] != ok:
-                            raise RuntimeError(f"harness: canonical state hash merges states with different futures: {ph} vs {h} on {ev}")
+                            hash_conflicts.append(f"{ph} vs {h} on {ev}")
         frontier = nxt
         max_depth_done = d + 1
     # ---- report: minimise each bad history (drop events while the mismatch persists) and match known findings
@@ -388,6 +391,12 @@ def main(tier="quick"):
             continue
         reported[key] = 1
         rep.violation(f"hist-{len(reported)}", f"after {feat['min_history']} the translation {list(ev)} [{b}] gives {str(got)[:120]} but a fresh process gives {str(want)[:120]} {feat['diff']}", feat)
+    # equal canonical state must imply equal futures.  State the snapshot cannot see (e.g. closures) shows up here; when it
+    # also changes an outcome it has been reported above as a violation, otherwise the canonicalisation itself is unsound.
+    if hash_conflicts:
+        rep.notes.append({"equal_state_hash_but_different_futures": hash_conflicts[:5]})
+        if not bad:
+            raise RuntimeError(f"harness: canonical state hash merges states with different futures: {hash_conflicts[0]}")
     rep.set("states", len(seen_states))
     rep.set("transitions", transitions)
     rep.set("traces_validated_against_impl", validated)
